@@ -741,3 +741,113 @@ func VerifC01_Pipe() {
 	zzverif.Assert(ok && got == interface{}(want), "pipe: "+names[k]+" evaluates to something else than the call it stands for")
 	zzverif.Reach("pipe")
 }
+
+// higher-order builtins with user functions as callbacks: a function passed
+// to map / filter / reduce / find / some / every / sort computes what it
+// computes when called directly - also when it calls other functions, calls
+// itself, or reads a module constant
+const srcHigherOrder = `
+const K = 10
+
+! inc(n: int): int {
+  > n + 1
+}
+
+! inc2(n: int): int {
+  > inc(inc(n))
+}
+
+! addk(n: int): int {
+  > n + K
+}
+
+! fact(n: int): int {
+  if n <= 1 {
+    > 1
+  }
+  > n * fact(n - 1)
+}
+
+! big(n: int): bool {
+  > inc(n) > 3
+}
+
+! add(a: int, b: int): int {
+  > inc(a) + b - 1
+}
+
+@ POST /t/:which {
+  $ xs = [input.a, input.b, 3]
+  if which == "map-direct" {
+    > map(xs, inc)
+  }
+  if which == "map-nested" {
+    > map(xs, inc2)
+  }
+  if which == "map-const" {
+    > map(xs, addk)
+  }
+  if which == "map-recursive" {
+    > map([1, 3, 4], fact)
+  }
+  if which == "filter" {
+    > filter(xs, big)
+  }
+  if which == "reduce" {
+    > reduce(xs, add, 0)
+  }
+  if which == "find" {
+    > find([1, 2, 3, 4], big)
+  }
+  if which == "some" {
+    > some([1, 2, 3], big)
+  }
+  > every([3, 4], big)
+}
+`
+
+func VerifC01_HigherOrder() {
+	names := []string{"map-direct", "map-nested", "map-const", "map-recursive", "filter", "reduce", "find", "some", "every"}
+	k := zzverif.Choice("which", len(names))
+	a, b := int64(zzverif.IntRange("a", -4, 4)), int64(zzverif.IntRange("b", -4, 4))
+	got, ok := runSource(srcHigherOrder, map[string]interface{}{"a": a, "b": b}, map[string]string{"which": names[k]})
+	name := "higher-order builtin " + names[k] + ": a user function as callback computes something else than when called directly"
+	zzverif.Assert(ok, name+" (error)")
+	ints := func(want ...int64) bool {
+		arr, isArr := got.([]interface{})
+		if !isArr || len(arr) != len(want) {
+			return false
+		}
+		for i := range want {
+			if arr[i] != interface{}(want[i]) {
+				return false
+			}
+		}
+		return true
+	}
+	switch names[k] {
+	case "map-direct":
+		zzverif.Assert(ints(a+1, b+1, 4), name)
+	case "map-nested":
+		zzverif.Assert(ints(a+2, b+2, 5), name)
+	case "map-const":
+		zzverif.Assert(ints(a+10, b+10, 13), name)
+	case "map-recursive":
+		zzverif.Assert(ints(1, 6, 24), name)
+	case "filter":
+		var want []int64
+		for _, x := range []int64{a, b, 3} {
+			if x+1 > 3 {
+				want = append(want, x)
+			}
+		}
+		zzverif.Assert(ints(want...), name)
+	case "reduce":
+		zzverif.Assert(got == interface{}(a+b+3), name)
+	case "find":
+		zzverif.Assert(got == interface{}(int64(3)), name)
+	case "some", "every":
+		zzverif.Assert(got == interface{}(true), name)
+	}
+	zzverif.Reach("higher-order")
+}
